@@ -83,16 +83,16 @@ def build_binary():
     return BIN
 
 
-def vh(args, timeout=3600, input=None):
+def vh(args, timeout=3600, input=None, env=None):
     build_harness()
-    p = sh([VH] + args, timeout=timeout, check=False, input=input)
+    p = sh([VH] + args, timeout=timeout, check=False, input=input, env=env)
     if p.returncode != 0:
         raise ToolError("vh %s failed (%d): %s" % (args, p.returncode, p.stderr[-3000:]))
     return p.stdout
 
 
-def vh_json(args, timeout=3600, input=None):
-    out = vh(args, timeout=timeout, input=input)
+def vh_json(args, timeout=3600, input=None, env=None):
+    out = vh(args, timeout=timeout, input=input, env=env)
     return json.loads(out.strip().splitlines()[-1])
 
 
